@@ -169,7 +169,8 @@ Verdict(ev) ==
             \cup (IF EdgeScalar(s) THEN {"bm_edge"} ELSE {}) >>
     [] ev.ev = "bm.Priv" ->
          LET s == H(ev.s)  a == PMulG(s) IN
-         << ev.pub = EncUncompressedH(a) /\ ev.cmp = EncCompressedH(a), {"bm_priv"} \cup (IF Has(ev, "after_derive") THEN {"bm_priv_after_derive"} ELSE {}) >>
+         << ev.pub = EncUncompressedH(a) /\ ev.cmp = EncCompressedH(a)
+              /\ (Has(ev, "scalar") => ev.scalar = ev.s /\ ev.bytes = ev.s), {"bm_priv"} \cup (IF Has(ev, "after_derive") THEN {"bm_priv_after_derive"} ELSE {}) >>
     (* ---------------- C06 ---------------- *)
     [] ev.ev = "s1.Decode" ->
          LET b == HexToBytes(ev["in"])
@@ -243,7 +244,7 @@ LifeWant(acc, ev) ==
   CASE ev.op = "reset"     -> src
     [] ev.op = "identity"  -> Inf
     [] ev.op = "generator" -> GenPt
-    [] ev.op = "set"       -> src
+    [] ev.op \in {"set", "replace"} -> src
     [] ev.op = "add"       -> PAdd(acc, src)
     [] ev.op = "radd"      -> PAdd(src, acc)
     [] ev.op = "sub"       -> PSub(acc, src)
@@ -268,6 +269,10 @@ LifeObsOK(ev, want) ==
   /\ ev.unc = u /\ ev.unc_again = u /\ ev.copy_unc = u /\ ev.other_unc = u
   /\ ev.cmp = cm /\ ev.copy_cmp = cm /\ ev.other_cmp = cm
   /\ ev.isid = FlagOf(IsInf(want)) /\ ev.eqself = 1 /\ ev.eqcopy = 1
+  /\ (Has(ev, "src_kind") =>                                        \* what a constructor hands out is what it is documented to hand out
+        /\ (ev.src_kind = "identity" => ev.src = "00")
+        /\ (ev.src_kind = "generator" => ev.src = EncUncompressedH(GenPt))
+        /\ (ev.src_kind = "neg_generator" => ev.src = EncUncompressedH(PNeg(GenPt))))
   /\ IF IsInf(want) THEN ev.xb = "err" ELSE /\ ev.xb = IntToHex(want[1], W)
                                             /\ ev.yodd = FlagOf(FIsOdd(want[2])) /\ ev.copy_yodd = ev.yodd
 
